@@ -59,14 +59,17 @@ func NewGRPCServerMuxer(logger hclog.Logger, ln net.Listener) *GRPCServerMuxer {
 		acceptChannels: make(map[uint32]chan acceptResult),
 	}
 
-	go m.acceptSession(ln)
+	// The yamux defaults read os.Stderr. Take them here, on the caller's
+	// goroutine: Serve replaces os.Stdout/os.Stderr after creating the muxer
+	// and possibly while acceptSession is already running.
+	go m.acceptSession(ln, yamux.DefaultConfig())
 
 	return m
 }
 
 // acceptSessionAndMuxAccept is responsible for establishing the yamux session,
 // and then kicking off the acceptLoop function.
-func (m *GRPCServerMuxer) acceptSession(ln net.Listener) {
+func (m *GRPCServerMuxer) acceptSession(ln net.Listener, cfg *yamux.Config) {
 	defer close(m.sessionErrCh)
 
 	m.logger.Debug("accepting initial connection", "addr", m.addr)
@@ -77,7 +80,6 @@ func (m *GRPCServerMuxer) acceptSession(ln net.Listener) {
 	}
 
 	m.logger.Debug("initial server connection accepted", "addr", m.addr)
-	cfg := yamux.DefaultConfig()
 	cfg.Logger = m.logger.Named("yamux").StandardLogger(&hclog.StandardLoggerOptions{
 		InferLevels: true,
 	})
